@@ -548,6 +548,13 @@ theorem bad_attachment_reported (ops : Ops DT Val) (nameOf : Val → Option Name
   · exact Or.inl (List.ne_nil_of_mem he)
   · right; intro hnil; rw [hnil] at h; cases h
 
+/-- the depth bound built into the model of `SecNode.get_module` (fuel: number of registered modules + 1) is never
+what ends an initialisation — for every node: the modules being initialised (`SecNode.initializing`) are distinct
+registered modules.  So `InitErr.fuel` is not an outcome, and the model is the unbounded recursion of the code. -/
+theorem init_fuel_suffices (ops : Ops DT Val) (nameOf : Val → Option Name) (mods : List (ModDecl DT Val)) :
+    ∀ e ∈ (startNode ops nameOf mods).init.errors, e.2 ≠ InitErr.fuel :=
+  Lemmas.ConfigAttach.initNode_nofuel _
+
 /-! ## merging -/
 
 /-- the definition a (sub)list of `Mod` calls of one file leaves for name `k`: the LAST one -/
@@ -873,6 +880,14 @@ example : (startNode toyOps toyName [exReg (some 1),
     (startNode toyOps toyName [exReg (some 1),
       { exPlain "t" ["Module", "KA"] with cfg := [("description", .prop (.bare 7)), ("zz", .prop (.bare 1))] }]).init.recreated = ["t"] := by
   decide +kernel
+
+/-- a chain `r → t → u` of attachments (as deep as the node is large): initialised depth first, all applied, started -/
+example : (startNode toyOps toyName [exReg (some 1), { exReg (some 2) with name := "t", kinds := ["Module", "KA"] },
+      exPlain "u" ["Module", "KA"]]).init.initialized = ["u", "t", "r"] ∧
+    (startNode toyOps toyName [exReg (some 1), { exReg (some 2) with name := "t", kinds := ["Module", "KA"] },
+      exPlain "u" ["Module", "KA"]]).attachedOf "t" "out" = some "u" ∧
+    (startNode toyOps toyName [exReg (some 1), { exReg (some 2) with name := "t", kinds := ["Module", "KA"] },
+      exPlain "u" ["Module", "KA"]]).starts = true := by decide +kernel
 
 /-- merging on a concrete example: three files, `b` defined in all of them, `c` only in the third -/
 example : mergeB (· == ·)
